@@ -370,7 +370,7 @@ def simulate(ch: Choices, prog: Program, *, db_path: Optional[str] = None,
              session: Optional[ProgramSession] = None,
              setup: Optional[Callable[[World, Recorder, Any], None]] = None,
              context: Optional[dict] = None,
-             keep_backend: bool = False) -> RunResult:
+             keep_backend: bool = False, scheduler: Any = None) -> RunResult:
     """
     One simulated execution of `prog` on a fresh (or given) backend file.
     """
@@ -387,14 +387,20 @@ def simulate(ch: Choices, prog: Program, *, db_path: Optional[str] = None,
         if own_session:
             sess.__enter__()
         with schedsim.installed(w), recording(w, rec):
-            backend = schedsim.open_backend(db_path)
-            sched = schedsim.make_scheduler(backend, limits=limits if limits is not None else prog.limits,
-                                            context=context)
-            sched.logger = schedsim.QuietLogger()
+            if scheduler is not None:
+                # Reuse of a Scheduler object (and its backend) for another execution.
+                sched = scheduler
+                backend = None
+                keep_backend = True
+            else:
+                backend = schedsim.open_backend(db_path)
+                sched = schedsim.make_scheduler(
+                    backend, limits=limits if limits is not None else prog.limits, context=context)
+                sched.logger = schedsim.QuietLogger()
             if setup:
                 setup(w, rec, sched)
             res = run_expr(w, rec, sched, sess.main_expr, run_kwargs)
-            res.backend = backend
+            res.backend = sched.backend
             res.db_path = db_path
             return res
     finally:
